@@ -262,6 +262,17 @@ def unpackBody (dotu : Bool) (t : UInt8) (p : Bytes) : R (Msg × Bytes) :=
   else if t = 127 then pure (.rwstat, p)
   else .err .idBad          -- `default:` of the switch (Terror)
 
+/-- `Unpack` after the header and the reslice `p = p[0:size-7]`: type range check, table
+    lookup, the per-type switch, the trailing-bytes check. -/
+def unpackRest (dotu : Bool) (size : Nat) (t : UInt8) (tag : UInt16) (p : Bytes) :
+    R (UInt16 × Msg × Nat) :=
+  if t.toNat < Generated.Tversion ∨ t.toNat ≥ Generated.Tlast then .err .idBad else do
+  let sz ← minSize dotu t
+  if p.length < sz then .err .szerror else do
+  let (m, rest) ← unpackBody dotu t p
+  if rest.length > 0 then .err .szerror else
+  pure (tag, m, size)
+
 /-- `Unpack(buf, dotu)`: tag, message, bytes consumed. -/
 def unpack (dotu : Bool) (buf : Bytes) : R (UInt16 × Msg × Nat) :=
   if buf.length < 7 then .err .bufShort else do
@@ -270,12 +281,22 @@ def unpack (dotu : Bool) (buf : Bytes) : R (UInt16 × Msg × Nat) :=
   let (tag, p) ← gint16 p
   if size.toNat > buf.length ∨ size.toNat < 7 then .err .sizeBad else do
   let (p, _) ← need (size.toNat - 7) p
-  if t.toNat < Generated.Tversion ∨ t.toNat ≥ Generated.Tlast then .err .idBad else do
-  let sz ← minSize dotu t
-  if p.length < sz then .err .szerror else do
-  let (m, rest) ← unpackBody dotu t p
-  if rest.length > 0 then .err .szerror else
-  pure (tag, m, size.toNat)
+  unpackRest dotu size.toNat t tag p
+
+/-- the only allocations of `Unpack` whose size is taken from a count field of the input:
+    `make([]string, m)` in Twalk and `make([]Qid, m)` in Rwalk (16 bytes per element);
+    0 when the guard in front of the `make` rejects the frame.  (Strings are copies of
+    sub-slices of the input; after the fix a Twrite payload aliases the input.) -/
+def makeBytes (t : UInt8) (p : Bytes) : Nat :=
+  if t = 110 then
+    match (do let (_, p) ← gint32 p; let (_, p) ← gint32 p; gint16 p : R (UInt16 × Bytes)) with
+    | .ok (m, p) => if p.length < 2 * m.toNat then 0 else 16 * m.toNat
+    | _ => 0
+  else if t = 111 then
+    match gint16 p with
+    | .ok (m, p) => if p.length < 13 * m.toNat then 0 else 16 * m.toNat
+    | _ => 0
+  else 0
 
 /-! ### the packers (packt.go, packr.go, p9.go) -/
 
